@@ -4,6 +4,7 @@ TIER="$1"; shift
 for p in "$@"; do
   for prop in C11 C10 C12 C13 C07; do
     case "$(basename $p)" in
+      b2[2-6]*) [ $prop != C07 -a $prop != C13 ] && continue ;;
       b[1-5]*|b10*|b21*) [ $prop = C07 ] && continue ;;
       b7*) [ $prop = C07 -o $prop = C10 -o $prop = C11 ] && continue ;;
       b8*) [ $prop != C13 ] && continue ;;
